@@ -17,8 +17,8 @@ EXTENDS Huffman, TLC, Json, IOUtils
 
 Rec == ndJsonDeserialize(IOEnv.TRACE)
 
-VARIABLES l, slots, skip, errs, cleared
-vars == <<l, slots, skip, errs, cleared>>
+VARIABLES l, slots, skip, errs, cleared, wrapped
+vars == <<l, slots, skip, errs, cleared, wrapped>>
 
 LensOf(ps) == [s \in {ps[i][1] : i \in 1..Len(ps)} |-> ps[CHOOSE i \in 1..Len(ps) : ps[i][1] = s][2]]
 
@@ -27,9 +27,10 @@ LensOf(ps) == [s \in {ps[i][1] : i \in 1..Len(ps)} |-> ps[CHOOSE i \in 1..Len(ps
 \* means that clear() did not make the container fresh (C08)
 SlotOf(e) == IF "s" \in DOMAIN e THEN e.s ELSE IF "d" \in DOMAIN e THEN e.d ELSE 0
 Err(e, why) == IF PrintT(<<"ERR", ToJson([line |-> l, run |-> e.run, why |-> why,
-                                          afterclear |-> SlotOf(e) \in cleared])>>) THEN errs + 1 ELSE errs
+                                          afterclear |-> SlotOf(e) \in cleared,
+                                          wrapped |-> SlotOf(e) \in wrapped])>>) THEN errs + 1 ELSE errs
 
-Init == l = 1 /\ slots = <<>> /\ skip = FALSE /\ errs = 0 /\ cleared = {}
+Init == l = 1 /\ slots = <<>> /\ skip = FALSE /\ errs = 0 /\ cleared = {} /\ wrapped = {}
 
 \* why a logged length table is not an optimal code for the spec's statistics
 CodeDefect(lens, counts) ==
@@ -60,6 +61,7 @@ Step(e) ==
                                   ELSE IF e.read_err # "" THEN "read-failed"
                                   ELSE IF e.read # e.v THEN "read-differs"
                                   ELSE IF ~e.stable THEN "earlier-item-changed"
+                                  ELSE IF ~e.onto_ok THEN "clone-onto-differs"
                                   ELSE "ok"
                        IN  IF why = "ok"
                            THEN slots' = [slots EXCEPT ![e.s] = nsl] /\ UNCHANGED <<skip, errs>>
@@ -94,6 +96,14 @@ Next == /\ l <= Len(Rec)
                       ELSE IF Rec[l].ev = "clear" THEN cleared \cup {Rec[l].s}
                       ELSE IF Rec[l].ev = "merge" THEN cleared \ {Rec[l].d}
                       ELSE cleared
+        \* `wrapped`: containers that received a read item of another container as input (C20), and
+        \* the containers whose code was built from their statistics
+        /\ wrapped' = IF Rec[l].ev = "reset" THEN {}
+                      ELSE IF Rec[l].ev = "push" /\ Rec[l].form = "wrapped" THEN wrapped \cup {Rec[l].s}
+                      ELSE IF Rec[l].ev = "merge"
+                           THEN IF \E i \in 1..Len(Rec[l].srcs) : Rec[l].srcs[i] \in wrapped
+                                THEN wrapped \cup {Rec[l].d} ELSE wrapped \ {Rec[l].d}
+                      ELSE wrapped
         /\ (l = Len(Rec)) => PrintT(<<"DONE", l, errs'>>)
 
 Spec == Init /\ [][Next]_vars
